@@ -2,7 +2,7 @@
    argument tokens in, an outcome and result tokens out.  All calls into the
    models are made here, in Gallina; the hand-written OCaml only tokenises. *)
 From Coq Require Import String Ascii.
-From Dryoc Require Import Lib.Outcome Impl.Blake2b Impl.Kdf Impl.Poly1305 Impl.Hashes Impl.SecretBox Impl.SecretStream Impl.Scalarmult Impl.PwhashStr Impl.Serde Impl.Rng Impl.Sign.
+From Dryoc Require Import Lib.Outcome Impl.Blake2b Impl.Kdf Impl.Poly1305 Impl.Hashes Impl.SecretBox Impl.SecretStream Impl.Scalarmult Impl.PwhashStr Impl.Serde Impl.Rng Impl.Sign Impl.Protected.
 Open Scope Z_scope.
 
 Inductive tok :=
@@ -196,6 +196,44 @@ Definition dispatch (op : string) (args : list tok) : option (outcome (list tok)
     match args with [TB seed] => let '(pk, sk) := SignImpl.box_seed_keypair seed in Some (Ok [TB pk; TB sk]) | _ => None end
   else if String.eqb op "kx.seed_keypair" then
     match args with [TB seed] => Some (omap (fun p => [TB (fst p); TB (snd p)]) (SignImpl.kx_seed_keypair seed)) | _ => None end
+  else if String.eqb op "protected.history" then
+    match args with
+    | [TI len; TL ops] =>
+        let ops' := map (fun t => match t with TI c => ProtectedImpl.op_of_code c | _ => ProtectedImpl.OFill end) ops in
+        match ProtectedImpl.create (Z.to_nat len) 195 O with
+        | Ok w0 =>
+            let steps := ProtectedImpl.run w0 ops' in
+            let obs w := let '(a, b, c, d, e) := ProtectedImpl.observe w in TL [TI a; TI b; TI c; TI d; TI e] in
+            let wl := ProtectedImpl.last_ok w0 steps in
+            let '(_, regs) := ProtectedImpl.drop_all wl in
+            let final := fold_right (fun r a => (ProtectedImpl.locked_pages r + a)%nat) O regs in
+            Some (Ok [TL (obs w0 :: map (fun x => match x with Ok w => obs w | _ => TL [] end) steps); TI (Z.of_nat final)])
+        | _ => Some Err
+        end
+    | _ => None end
+  else if String.eqb op "protected.releases" then
+    match args with
+    | [TI len; TL ops] =>
+        let ops' := map (fun t => match t with TI c => ProtectedImpl.op_of_code c | _ => ProtectedImpl.OFill end) ops in
+        match ProtectedImpl.create (Z.to_nat len) 195 O with
+        | Ok w0 =>
+            let wl := ProtectedImpl.last_ok w0 (ProtectedImpl.run w0 ops') in
+            let '(evs, _) := ProtectedImpl.drop_all wl in
+            let evs := filter (fun e : nat * bool => negb (fst e =? 0)%nat) evs in
+            Some (Ok [TL (map (fun e : nat * bool => TL [TI (Z.of_nat (fst e)); TI (if snd e then 1 else 0)]) evs)])
+        | _ => Some Err
+        end
+    | _ => None end
+  else if String.eqb op "protected.refusal" then
+    match args with
+    | [TI len; TL ops; TI k] =>
+        let ops' := map (fun t => match t with TI c => ProtectedImpl.op_of_code c | _ => ProtectedImpl.OFill end) ops in
+        match ProtectedImpl.create (Z.to_nat len) 195 (Z.to_nat k) with
+        | Ok w0 => Some (Ok [TL (TI 0 :: map (fun x => class_tok x) (ProtectedImpl.run w0 ops'))])
+        | Err => Some (Ok [TL [TI 1]])
+        | Panic => Some (Ok [TL [TI 2]])
+        end
+    | _ => None end
   else if String.eqb op "stream.init" then
     match args with
     | [TB header; TB key] => Some (Ok (st_toks (init_c header key)))
